@@ -14,8 +14,11 @@ func TestMain(m *testing.M) { vstat.Main(m) }
 func genCase(t *rapid.T, mode string) Case {
 	c := Case{Mode: mode}
 	c.Providers = rapid.SampledFrom([]int{1, 1, 2, 2, 3}).Draw(t, "providers")
-	c.Names = rapid.SampledFrom([]int{1, 1, 1, 2}).Draw(t, "names")
-	nl := rapid.IntRange(2, 4).Draw(t, "lockers")
+	c.Names = rapid.SampledFrom([]int{1, 1, 1, 2, 2, 3}).Draw(t, "names")
+	// spelling of the key space: prefixes and names of various lengths (short names, odd prefix lengths)
+	c.Path = rapid.SampledFrom([]string{"", "", "l/", "p", "/locks/abc/", "/a/rather/long/prefix/for/the/lock/key/space/", "locks:"}).Draw(t, "path")
+	c.NameStyle = rapid.SampledFrom([]int{0, 1, 1, 2}).Draw(t, "nameStyle")
+	nl := rapid.IntRange(2, 5).Draw(t, "lockers")
 	for i := 0; i < nl; i++ {
 		c.Lockers = append(c.Lockers, LockerCfg{Provider: rapid.IntRange(0, c.Providers-1).Draw(t, "prov"), Name: rapid.IntRange(0, c.Names-1).Draw(t, "name")})
 	}
